@@ -13,11 +13,12 @@ for e in ENTRIES:
     os.makedirs(dst, exist_ok=True)
     for f in ("patch.diff", "demo.py", "notes.md"):
         shutil.copy(os.path.join(src, f), os.path.join(dst, f))
+    notes = open(os.path.join(src, "notes.md")).read().strip()
     meta = {
         "id": sid,
         "breaks_property": e["property"],
-        "summary": e["summary"],
-        "needs_to_manifest": e["needs"],
+        "summary": e.get("summary") or notes[:700],
+        "needs_to_manifest": e.get("needs") or "see notes.md (written by the author of the change)",
         "author": "independent sub-agent given only the property text and a scratch worktree",
         "confirmed": {
             "existing_test_suite_with_patch": "276 passed",
